@@ -265,7 +265,7 @@ func (c *checker) runGiven(h wm.History, pool *wm.Pool) {
 func main() {
 	r := mon.Start("C37")
 	defer r.Finish()
-	r.SetRule("history i = 1..8 calls on one connection / one HTTP server, transport by i mod 8 (pipe x3, in-process HTTP x3, Unix socket, HTTP listener); first call's class = class list[(i/4) mod n] (quota by construction), the rest uniform over 27 (pipe) / 34 (HTTP) call classes: unary value/void/error/panic/parameter mismatch, stream complete/early EOS/cancel/not castable, init error/panic/nil/badstate, mid-stream error/panic/no-emit/double-emit/finish, header that does not serialise, state that cannot be sealed (at init, later), refused output batch, response cap, sticky-session error, plus the undispatched ones (unknown method, version-gate refusal, bad/missing token, describe); each history is run twice (hook well-behaved / hook panicking or returning nil context per request); distinct = transport x server config x (class, hook modes) sequence")
+	r.SetRule("history i = 1..8 calls on one connection / one HTTP server, transport by i mod 8 (pipe x3, in-process HTTP x3, Unix socket, HTTP listener); first call's class = class list[(i/4) mod n] (quota by construction), the rest uniform over 36 (pipe) / 43 (HTTP) call classes: unary value/void/error/panic/parameter mismatch, handler failure with an RpcError of empty Type (bare, %w-wrapped, Kind only; unary / stream init / stream turn), stream complete/early EOS/cancel/not castable, init error/panic/nil/badstate, mid-stream error/panic/no-emit/double-emit/finish, header that does not serialise, state that cannot be sealed (at init, later), refused output batch, response cap, sticky-session error, plus the undispatched ones (unknown method, version-gate refusal, bad/missing token, describe); each history is run twice (hook well-behaved / hook panicking or returning nil context per request); distinct = transport x server config x (class, hook modes) sequence")
 	r.Assume("handlers never log at level EXCEPTION (on the wire such a log is an error report whatever the handler returns); generated scripts have them stripped")
 	r.Assume("a request refused while its input batch is cast (before the server looks at the tokens), with a bad/missing token, for an unknown method or by the version gate is not a dispatched call: hook invocations there are only counted")
 	slog.SetDefault(slog.New(slog.NewTextHandler(io.Discard, nil)))
